@@ -2,7 +2,7 @@
 import gen
 import msggen
 
-QUICK_ROWS = ["msg1071", "msg1074", "msg1087", "msg1127"]
+QUICK_ROWS = ["msg1071", "msg1074"]
 PERMS3 = [(0, 1, 2), (2, 1, 0), (1, 2, 0)]
 
 
